@@ -507,6 +507,12 @@ func runC13(c *Ctx, _ []string) {
 			}
 		}
 	}
+	// one symbol occurring 2^21 times or more in a block (four-byte counts in the SRT header; long runs everywhere else)
+	for _, name := range []string{"SRT", "RLT", "ZRLT", "RANK", "MTFT"} {
+		for i, n := range []int{1<<21 - 1, 1 << 21, 1<<21 + 5, 3 << 20} {
+			try(name, "NONE", "zeros", n, "", 800+uint64(i))
+		}
+	}
 	// RLT with its default escape byte in the data (fast entropy codecs: the escape is 0xFB), also among the last bytes of the block
 	for _, en := range []string{"NONE", "HUFFMAN", "ANS0", "RANGE"} {
 		for _, n := range []int{64, 300, 2000, 20000} {
